@@ -71,6 +71,37 @@ def _members(e, n, t):
     return set()
 
 
+_MODULE = [None]     # the module being translated (for helper inlining)
+
+
+def _inline(st):
+    """`helper(a, 'const', b)` with a module-level helper of plain positional parameters -> the helper's body with
+    the parameters substituted (None when `st` is not such a call)"""
+    import copy
+    c = st.value if isinstance(st, ast.Expr) and isinstance(st.value, ast.Call) else None
+    if c is None or not isinstance(c.func, ast.Name) or _MODULE[0] is None or c.func.id in ('_prune', '_purge'):
+        return None
+    hs = [d for d in _MODULE[0].body if isinstance(d, ast.FunctionDef) and d.name == c.func.id]
+    if len(hs) != 1:
+        return None
+    h = hs[0]
+    a = h.args
+    if (a.vararg or a.kwarg or a.kwonlyargs or a.posonlyargs or a.defaults or c.keywords or len(a.args) != len(c.args)
+            or not all(isinstance(x, (ast.Name, ast.Constant)) for x in c.args)):
+        raise Untranslatable(f'schedule: helper {h.name} called in a way outside the subset')
+    bind = {p.arg: x for p, x in zip(a.args, c.args)}
+    stmts = [x for x in h.body if not (isinstance(x, ast.Expr) and isinstance(x.value, ast.Constant))]
+    if stmts and isinstance(stmts[-1], ast.Return) and stmts[-1].value is None:
+        stmts = stmts[:-1]
+    if any(isinstance(x, (ast.Return, ast.Assign, ast.AugAssign, ast.For, ast.While)) for y in stmts for x in ast.walk(y)):
+        raise Untranslatable(f'schedule: helper {h.name} is outside the subset')
+
+    class Sub(ast.NodeTransformer):
+        def visit_Name(self, node):   # pylint: disable=invalid-name
+            return copy.deepcopy(bind[node.id]) if node.id in bind else node
+    return [ast.fix_missing_locations(Sub().visit(copy.deepcopy(x))) for x in stmts]
+
+
 def _block(stmts, n, t, where, known, skip):
     """Lean expression of type Node (over the variable `nd`) for a statement list; `known`: fields `t` is known to
     be a member of; `skip(stmt)` -> True for statements handled elsewhere"""
@@ -82,6 +113,11 @@ def _block(stmts, n, t, where, known, skip):
         if isinstance(st, ast.Expr) and isinstance(st.value, ast.Constant):
             continue
         if skip(st):
+            continue
+        inl = _inline(st)
+        if inl is not None:
+            out.append('(' + _block(inl, n, t, where, known, skip) + ')')
+            known = set()
             continue
         if isinstance(st, ast.If):
             c = _expr(st.test, n, t, where)
@@ -114,31 +150,49 @@ def _block(stmts, n, t, where, known, skip):
     return text
 
 
-def gen_schednodes(repo):
-    tree = _tree(repo, 'pl/schedule.py')
-    # ---- _prune: que = [j for j in que if <keep>]
-    fn = find_def(tree, '_prune')
-    comps = [x for x in ast.walk(fn) if isinstance(x, ast.ListComp)]
-    assigns = [x for x in fn.body if isinstance(x, ast.Assign)]
-    if len(comps) != 1 or len(assigns) != 1 or assigns[0].value is not comps[0]:
-        raise Untranslatable('schedule._prune: not a single assignment of one list comprehension')
-    if ast.unparse(assigns[0].targets[0]) not in ('dawgie.pl.schedule.que', 'que'):
-        raise Untranslatable('schedule._prune: the comprehension is not assigned to the queue')
-    if ast.unparse(assigns[0].targets[0]) == 'que' and not any(isinstance(x, ast.Global) and 'que' in x.names
-                                                             for x in fn.body):
+def _prune_loop(fn):
+    """the loop form of `_prune`: `acc = []; for j in que: if c1: acc.append(j) elif c2: ..; que = acc` -> the keep
+    condition (None when `_prune` is not written that way)"""
+    body = [st for st in fn.body if not isinstance(st, (ast.Return, ast.Pass, ast.Global))
+            and not (isinstance(st, ast.Expr) and isinstance(st.value, ast.Constant))]
+    if len(body) != 3 or not isinstance(body[1], ast.For):
+        return None
+    init, loop, fin = body
+    if not (isinstance(init, ast.Assign) and len(init.targets) == 1 and isinstance(init.targets[0], ast.Name)
+            and ast.unparse(init.value) in ('[]', 'list()')):
+        return None
+    acc = init.targets[0].id
+    if not (isinstance(fin, ast.Assign) and ast.unparse(fin.targets[0]) in ('dawgie.pl.schedule.que', 'que')
+            and ast.unparse(fin.value) == acc):
+        raise Untranslatable('schedule._prune: the accumulated list is not assigned to the queue')
+    if ast.unparse(fin.targets[0]) == 'que' and not any(isinstance(x, ast.Global) and 'que' in x.names for x in fn.body):
         raise Untranslatable('schedule._prune: assigns a local `que`')
-    comp = comps[0]
-    gen = comp.generators[0]
-    if (len(comp.generators) != 1 or not isinstance(gen.target, ast.Name) or ast.unparse(comp.elt) != gen.target.id
-            or ast.unparse(gen.iter) not in ('que', 'dawgie.pl.schedule.que') or gen.is_async):
-        raise Untranslatable('schedule._prune: comprehension is not `[j for j in que if ..]`')
-    j = gen.target.id
-    keep = ' && '.join(_expr(c, j, None, 'schedule._prune') for c in gen.ifs) or 'true'
-    for st in fn.body:
-        if st is not assigns[0] and not isinstance(st, (ast.Return, ast.Pass, ast.Global)) and not (
-                isinstance(st, ast.Expr) and isinstance(st.value, ast.Constant)):
-            raise Untranslatable(f'schedule._prune: statement outside the subset: {ast.unparse(st)[:70]}')
+    if (not isinstance(loop.target, ast.Name) or ast.unparse(loop.iter) not in ('que', 'dawgie.pl.schedule.que')
+            or loop.orelse):
+        raise Untranslatable('schedule._prune: loop is not `for j in que`')
+    j = loop.target.id
 
+    def appends(stmts):
+        real = [x for x in stmts if not isinstance(x, ast.Pass)]
+        if not real:
+            return False
+        if len(real) == 1 and ast.unparse(real[0]) == f'{acc}.append({j})':
+            return True
+        raise Untranslatable(f'schedule._prune: loop body outside the subset: {ast.unparse(real[0])[:60]}')
+
+    def chain(stmts):
+        real = [x for x in stmts if not isinstance(x, ast.Pass)]
+        if not real:
+            return 'false'
+        if len(real) == 1 and isinstance(real[0], ast.If):
+            c = _expr(real[0].test, j, None, 'schedule._prune')
+            a = 'true' if appends(real[0].body) else 'false'
+            return f'(if {c} then {a} else {chain(real[0].orelse)})'
+        return 'true' if appends(real) else 'false'
+    return chain(loop.body)
+
+
+def _rest(tree, keep):
     # ---- _purge(node, target): node-local part, then the recursion over the children
     fn = find_def(tree, '_purge')
     n, t = [a.arg for a in fn.args.args][:2]
@@ -178,6 +232,13 @@ def gen_schednodes(repo):
             src = ast.unparse(st)
             return not any(x in src for x in (f'{n}.set', '.remove(', '.clear(', '.discard(', '.add(', '.pop(',
                                               '.update(', '_prune(', '_purge('))
+        # a branch / a loop over something other than the node whose statements are all of that kind
+        if isinstance(st, ast.If) and f'{n}.' not in ast.unparse(st.test) and not any(
+                isinstance(x, ast.Call) for x in ast.walk(st.test)):
+            return all(bookkeeping(x) or isinstance(x, ast.Pass) for x in st.body + st.orelse)
+        if isinstance(st, ast.For) and not st.orelse and f'{n}' not in {x.id for x in ast.walk(st.iter)
+                                                                         if isinstance(x, ast.Name)}:
+            return all(bookkeeping(x) or isinstance(x, ast.Pass) for x in st.body)
         return False
     node_part = [st for st in fn.body[:idx[0]] if not bookkeeping(st)]
     complete = _block(node_part, n, t, 'schedule.complete', set(), lambda st: False)
@@ -206,3 +267,38 @@ def gen_schednodes(repo):
          f'def purgeNode (t : Target) (nd : Node) : Node :=\n    {purge}', '',
          'end DawgieVerif.Generated.SchedGen', '']
     return 'SchedGen', '\n'.join(L)
+
+
+def gen_schednodes(repo):
+    tree = _tree(repo, 'pl/schedule.py')
+    # ---- _prune: que = [j for j in que if <keep>]
+    fn = find_def(tree, '_prune')
+    _MODULE[0] = tree
+    keep = _prune_loop(fn)
+    comps = [] if keep else [x for x in ast.walk(fn) if isinstance(x, ast.ListComp)]
+    assigns = [x for x in fn.body if isinstance(x, ast.Assign)]
+    if keep:
+        pass
+    elif len(comps) != 1 or len(assigns) != 1 or assigns[0].value is not comps[0]:
+        raise Untranslatable('schedule._prune: not a single assignment of one list comprehension')
+    if keep:
+        return _rest(tree, keep)
+    if ast.unparse(assigns[0].targets[0]) not in ('dawgie.pl.schedule.que', 'que'):
+        raise Untranslatable('schedule._prune: the comprehension is not assigned to the queue')
+    if ast.unparse(assigns[0].targets[0]) == 'que' and not any(isinstance(x, ast.Global) and 'que' in x.names
+                                                             for x in fn.body):
+        raise Untranslatable('schedule._prune: assigns a local `que`')
+    comp = comps[0]
+    gen = comp.generators[0]
+    if (len(comp.generators) != 1 or not isinstance(gen.target, ast.Name) or ast.unparse(comp.elt) != gen.target.id
+            or ast.unparse(gen.iter) not in ('que', 'dawgie.pl.schedule.que') or gen.is_async):
+        raise Untranslatable('schedule._prune: comprehension is not `[j for j in que if ..]`')
+    j = gen.target.id
+    keep = ' && '.join(_expr(c, j, None, 'schedule._prune') for c in gen.ifs) or 'true'
+    for st in fn.body:
+        if st is not assigns[0] and not isinstance(st, (ast.Return, ast.Pass, ast.Global)) and not (
+                isinstance(st, ast.Expr) and isinstance(st.value, ast.Constant)):
+            raise Untranslatable(f'schedule._prune: statement outside the subset: {ast.unparse(st)[:70]}')
+    return _rest(tree, keep)
+
+
